@@ -83,7 +83,7 @@ CLAIMS["C07"] = dict(
          "formulas (unit normal, sin/cos of the turn, miter, bevel, the squaring line of the square join, round start and rotation step, perpendicular offset) equal the textbook "
          "formulas as polynomial normal forms (engine E14) and OffsetPoint dispatches every convex vertex to the construction of its JoinType, "
          "mitering exactly while the miter length is within the limit; (viii) the length below which the bisector of a square join counts as zero is "
-         "not above the shortest bisector the dispatch lets through (relation between two literals read from the code).",
+         "not above the shortest bisector the dispatch lets through (relation between two literals read from the code). Every path through OffsetPolygon / OffsetOpenJoined / OffsetOpenPath appends a contour (EMIT.every-path).",
     note="Stroke geometry, cap extents, circles for points are NOT decided. Stale normals passed to a delta callback (D12) are reported under C12.",
     technique="static analysis: loop-carried-state dataflow + AST rule on reads of delta + interpreted dispatch tables",
     design="§3 E2/E3, §4 C07", engine="E2")
@@ -135,7 +135,8 @@ CLAIMS["C08"] = dict(
          "documented order); GetBounds considers every vertex for min and max; the segment scan starts at the first segment on every path; GetSegmentIntersection's touching cases store an end point that lies on both "
          "lines (engine E14) and answer 'touching' exactly when it lies strictly between the other segment's ends, whichever way the side runs "
          "(48 cells); GetIntersection reports the side the segment meets first for p in every side region and every possible (entry, exit) pair "
-         "(76 cells); no point classification compares a coordinate of one axis with a bound of the other.",
+         "(76 cells); no point classification compares a coordinate of one axis with a bound of the other; the location RectClip64's scan starts with is the truth about "
+         "the last vertex (729 scenarios of the prologue).",
     note="The location state machine, corner insertion and TidyEdges (the behaviour for crossing paths) are NOT decided.",
     technique="static analysis: abstract interpretation over orderings + loop-carried-state dataflow",
     design="§3 E3/E2, §4 C08", engine="E3")
@@ -162,7 +163,7 @@ CLAIMS["C13"] = dict(
          "the cross-product predicates and the segment intersection are the textbook polynomials (engine E14), hence equivariant under "
          "translation, transposition and scaling as real-number formulas; the boolean convenience functions never hand a path parameter back as the result; every precision parameter "
          "reaches the scale / the ClipperD it is meant for (translation and integer scaling of decimal data); AddPaths_ carries no local from one "
-         "path of a call to the next (path order).",
+         "path of a call to the next (path order). GetClosestPointOnSegment is its defining polynomial identity (POLY.measure).",
     note="Permutation/rotation invariance of the sweep (IsValidAelOrder tie-breaking) and the algebraic identities are NOT decided.",
     technique="static analysis: table symmetries on the abstractly interpreted decision function + comparator axioms by exhaustive interpretation",
     design="§3 E3, §4 C13", engine="E3")
@@ -213,7 +214,8 @@ CLAIMS["C04"] = dict(
          "bounding-box midpoint); OutRec::splits lists only grow (never overwritten); Rect::Contains, the owner search's pre-filter, is closed "
          "inclusion on every ordering; the builders' index loops over outrec_list_ re-read its size (rings split off while building are emitted in both modes); whatever GetPrevHotEdge returns, the ring's tentative owner is "
          "assigned (SetOwner, or nullptr) on every path on which tree output is possible; PointInOpPolygon reports a vertex on an edge as IsOn "
-         "wherever a cross product decides a toggle.",
+         "wherever a cross product decides a toggle, and the shortcuts in front of it let every point within the edge's closed x-range through; SetOwner keeps the ownership forest a forest "
+         "and never cuts the re-attached ring loose from what contained it (executed on all forests over four records).",
     note="That the owners are right (containment, depth alternation, area equality) is NOT decided.",
     technique="static analysis: effect confinement of option-controlled regions + pipeline identity",
     design="§3 E10, §4 C04", engine="E10")
